@@ -86,6 +86,27 @@ fn get_server_values(bufferer: &mut Buffer<LittleEndian>) -> GDResult<HashMap<St
     Ok(vars)
 }
 
+/// Split a player line into its fields: on every space that is not inside
+/// double quotes (a quoted name can contain spaces). The quotes are kept.
+fn split_player_fields(line: &str) -> Vec<&str> {
+    let mut fields = Vec::new();
+    let mut start = 0;
+    let mut in_quotes = false;
+    for (position, character) in line.char_indices() {
+        match character {
+            '\"' => in_quotes = !in_quotes,
+            ' ' if !in_quotes => {
+                fields.push(&line[start .. position]);
+                start = position + 1;
+            }
+            _ => {}
+        }
+    }
+    fields.push(&line[start ..]);
+
+    fields
+}
+
 fn get_players<Client: QuakeClient>(bufferer: &mut Buffer<LittleEndian>) -> GDResult<Vec<Client::Player>> {
     let mut players: Vec<Client::Player> = Vec::new();
 
@@ -93,7 +114,7 @@ fn get_players<Client: QuakeClient>(bufferer: &mut Buffer<LittleEndian>) -> GDRe
     // terminate the packet with a single null byte, which is not a player line.
     while bufferer.remaining_length() > 0 && bufferer.remaining_bytes() != [0x00] {
         let data = bufferer.read_string::<Utf8Decoder>(Some([0x0A]))?;
-        let data_split = data.split(' ').collect::<Vec<&str>>();
+        let data_split = split_player_fields(&data);
         let data_iter = data_split.iter();
 
         players.push(Client::parse_player_string(data_iter)?);
